@@ -20,8 +20,9 @@
 (* planner.                                                                                   *)
 (*                                                                                            *)
 (* Keys.  hash/mod/range rules: small integers.  Calendar rules: an instant is the integer    *)
-(* K = yyyymmdd*10 + tod with tod 0 = 00:00:00, 5 = 12:00:00, 9 = 23:59:59 (order of K = order *)
-(* of instants; all values fit 32 bits).  The harness spells K as 'yyyy-mm-dd[ hh:mm:ss]'.     *)
+(* K = yyyymmdd*10 + tod with tod 0 = 00:00:00, 1 = 00:00:00.5 (a fractional second just     *)
+(* after midnight), 5 = 12:00:00, 8 = 23:59:58.999999, 9 = 23:59:59 (order of K = order of     *)
+(* instants; all values fit 32 bits).  The harness spells K as 'yyyy-mm-dd[ hh:mm:ss[.f]]'.    *)
 EXTENDS Integers, Sequences, FiniteSets, SequencesExt, TLC
 
 NoTable == -1
@@ -59,6 +60,9 @@ PMid(ty, p)   == CASE ty = "date_year"  -> MkK(p, 6, 15, 5)
 PEnd(ty, p)   == CASE ty = "date_year"  -> MkK(p, 12, 31, 9)
                    [] ty = "date_month" -> p * 1000 + DaysIn(p \div 100, p % 100) * 10 + 9
                    [] ty = "date_day"   -> p * 10 + 9
+(* a fractional second after the first instant / before the last whole second of the period *)
+PAfterStart(ty, p) == PStart(ty, p) + 1
+PBeforeEnd(ty, p)  == PEnd(ty, p) - 1
 PPrev(ty, p)  == CASE ty = "date_year"  -> p - 1
                    [] ty = "date_month" -> IF p % 100 = 1 THEN (p \div 100 - 1) * 100 + 12 ELSE p - 1
                    [] ty = "date_day"   ->
@@ -116,6 +120,7 @@ DateLitsOf(R) ==
   LET ty == R.type  T == Tables(R)  first == MinS(T)  last == MaxS(T)
       gaps == {PNext(ty, p) : p \in T \ {last}} \ T
   IN  {PStart(ty, p) : p \in T} \cup {PMid(ty, p) : p \in T} \cup {PEnd(ty, p) : p \in T}
+      \cup {PAfterStart(ty, p) : p \in T} \cup {PBeforeEnd(ty, p) : p \in T}
       \cup {PEnd(ty, PPrev(ty, first)), PStart(ty, PNext(ty, last))}
       \cup {PMid(ty, g) : g \in gaps}
 
@@ -134,7 +139,7 @@ Lits(R) == R.lits
 CoreLitsOf(R) ==
   IF IsDate(R.type)
   THEN LET ty == R.type  T == Tables(R)  p1 == MinS(T)  p2 == MinS(T \ {p1})  pl == MaxS(T)
-       IN  {PEnd(ty, p1), PStart(ty, p2), PMid(ty, p2), PEnd(ty, pl)}
+       IN  {PEnd(ty, p1), PStart(ty, p2), PAfterStart(ty, p2), PMid(ty, p2), PEnd(ty, pl)}
   ELSE IF R.type = "range"
        THEN {R.limit - 1, R.limit, R.limit + 1, NTables(R) * R.limit - 1}
        ELSE {0, 1, NTables(R), NTables(R) + 1}
@@ -167,6 +172,8 @@ LitClass(R, v) ==
                 ELSE IF p \notin T THEN "gap-period"
                 ELSE IF v = PStart(ty, p) THEN "period-start"
                 ELSE IF v = PEnd(ty, p) THEN "period-end"
+                ELSE IF v = PAfterStart(ty, p) THEN "fraction-after-period-start"
+                ELSE IF v = PBeforeEnd(ty, p) THEN "fraction-before-period-end"
                 ELSE "inside-period"
        ELSE IF R.type = "range"
             THEN IF v >= NTables(R) * R.limit THEN "out-of-range"
@@ -203,13 +210,16 @@ Not(x)    == [k |-> "not", x |-> x]
 (* U: literals for comparison / single-element leaves; P: literals for two-literal leaves;    *)
 (* wide = TRUE also adds BETWEEN over every ordered pair of U                                  *)
 LeafSet(U, P, wide) ==
-  LET NN(S) == {v \in S : v >= 0} IN
+  LET NN(S) == {v \in S : v >= 0}
+      Whole(S) == {v \in S : v < 100000000 \/ (v % 10) \notin {1, 8}}   \* not a fractional-second instant
+  IN
        {Leaf("cmp", "k", op, FALSE, v, 0, {}, "lit") : op \in Ops, v \in U}
   \cup {Leaf("cmp", "k", op, FALSE, v, 0, {}, "expr") : op \in {"=", "<", ">="}, v \in NN(P)}
   \cup {Leaf("in", "k", "", ng, 0, 0, {v}, "lit") : ng \in BOOLEAN, v \in U}
   \cup {Leaf("in", "k", "", ng, 0, 0, {v, w}, "lit") : ng \in BOOLEAN, v \in P, w \in P}
   \cup {Leaf("btw", "k", "", ng, ab[1], ab[2], {}, "lit") :
-          ng \in BOOLEAN, ab \in IF wide THEN {x \in U \X U : x[1] <= x[2]} \cup {x \in P \X P : x[1] > x[2]}
+          ng \in BOOLEAN, ab \in IF wide THEN {x \in Whole(U) \X Whole(U) : x[1] <= x[2]} \cup {x \in P \X P : x[1] > x[2]}
+                                                    \cup ((U \ Whole(U)) \X P) \cup (P \X (U \ Whole(U)))
                                          ELSE P \X P}
   \cup {Leaf("in", "k", "", FALSE, 0, 0, {v}, "expr") : v \in NN(P)}
   \cup {Leaf("btw", "k", "", ng, v, v, {}, "expr") : ng \in BOOLEAN, v \in NN(P)}
